@@ -202,6 +202,13 @@ func (r *ReaderStream) Read(p []byte) (int, error) {
 // manner that's safe for the assembler (IE: it doesn't block).
 func (r *ReaderStream) Close() error {
 	r.current = nil
+	// A batch that Read has already received is only acknowledged when the
+	// next one is requested. If we do not acknowledge it here the assembler
+	// stays blocked in Reassembled, and we block below waiting for it.
+	if !r.first && !r.closed {
+		r.done <- true
+	}
+	r.first = false
 	r.closed = true
 	for {
 		if _, ok := <-r.reassembled; !ok {
